@@ -312,6 +312,111 @@ fn stability(report: &Report, pool: &[(String, V)], rebuilds: usize, processes: 
     report.family(FamilyStat { name: "table stability".into(), cases: n, nontrivial: n, skipped: 0, note: format!("full pair table recomputed from freshly built values {rebuilds} times in this process and in {processes} fresh processes, compared byte for byte") });
 }
 
+
+/// Construction independence for *derived* objects.  `b` differs from `a` in two entries moved in
+/// opposite directions (so the verdict of an entry-wise comparison depends on which entry is
+/// looked at first); `b` is obtained four ways — built independently (reverse insertion order),
+/// cloned from `a` and edited in place (same hasher state, same iteration order as `a`),
+/// re-collected from `a`'s own iteration order into a fresh map, and through `to_value()` of a
+/// view — and all four must compare alike against `a`, in both directions, on every rebuild.
+fn derived_objects(report: &Report, rounds: usize) {
+    use liquid_core::model::{KString, Object, ValueView};
+    let parser = cfgs::parser(Config::Stdlib);
+    let tmpl = parser.parse("{% if a < b %}<{% elsif a > b %}>{% elsif a == b %}={% else %}?{% endif %}").expect("C11 template parses");
+    let mut n = 0u64;
+    let mut outcomes = std::collections::BTreeSet::new();
+    for &size in &[2usize, 3, 6, 16] {
+        let key = |i: usize| KString::from_string(format!("k{i:02}"));
+        for round in 0..rounds {
+            // a fresh `a` per round: a new hasher state, hence a new iteration order
+            let mut a = Object::new();
+            for i in 0..size {
+                a.insert(key(i), Value::scalar(10i64 + i as i64));
+            }
+            for i in 0..size {
+                for j in 0..size {
+                    if i == j || (size == 16 && (i + j + round) % 5 != 0) {
+                        continue;
+                    }
+                    // entry i goes up, entry j goes down
+                    let newv = |k: usize| -> Value {
+                        let base = 10i64 + k as i64;
+                        Value::scalar(if k == i { base + 1 } else if k == j { base - 1 } else { base })
+                    };
+                    let mut independent = Object::new();
+                    for k in (0..size).rev() {
+                        independent.insert(key(k), newv(k));
+                    }
+                    let mut cloned = a.clone();
+                    cloned.insert(key(i), newv(i));
+                    cloned.insert(key(j), newv(j));
+                    let mut recollected = Object::new();
+                    for (k, _) in a.iter() {
+                        let idx: usize = k.as_str()[1..].parse().unwrap_or(0);
+                        recollected.insert(k.clone(), newv(idx));
+                    }
+                    let via_view = ValueView::to_value(&cloned);
+                    let va = Value::Object(a.clone());
+                    let variants: Vec<(&str, Value)> = vec![("independent", Value::Object(independent)), ("clone-edited", Value::Object(cloned)), ("recollected", Value::Object(recollected)), ("to_value", via_view)];
+                    n += 1;
+                    report.eval();
+                    let r = guard(|| variants.iter().map(|(nm, vb)| (*nm, va == *vb, va.partial_cmp(vb), vb.partial_cmp(&va))).collect::<Vec<_>>());
+                    let w = || json!({"kind":"compare","a":format!("{} keys k00.. = 10..", size),"b":format!("a with k{i:02}+1 and k{j:02}-1"),"round":round});
+                    let rows = match r {
+                        Err(pi) => {
+                            report.violation(&format!("C11|derived|{}", pi.sig()), n, w(), pi.describe());
+                            continue;
+                        }
+                        Ok(x) => x,
+                    };
+                    let first = &rows[0];
+                    for row in &rows {
+                        if row.1 {
+                            report.violation("C11|derived|unequal-objects-compare-equal", n, w(), format!("{}: a == b although two entries differ", row.0));
+                        }
+                        if (row.1, row.2, row.3) != (first.1, first.2, first.3) {
+                            report.violation("C11|derived|outcome-depends-on-construction", n, w(), format!("a vs b built `{}`: cmp={:?}/{:?}; built `{}`: cmp={:?}/{:?}", first.0, first.2, first.3, row.0, row.2, row.3));
+                        }
+                        let dual = match (row.2, row.3) {
+                            (Some(x), Some(y)) => x == y.reverse(),
+                            (None, None) => true,
+                            _ => false,
+                        };
+                        if !dual {
+                            report.violation("C11|derived|less-greater-not-dual", n, w(), format!("{}: a?b = {:?} but b?a = {:?}", row.0, row.2, row.3));
+                        }
+                    }
+                    outcomes.insert((size, i, j, code(first.2)));
+                    // the same through a template, with the clone-edited object
+                    if round < 3 {
+                        let mut g = Object::new();
+                        g.insert("a".into(), va.clone());
+                        g.insert("b".into(), variants[1].1.clone());
+                        let got = cfgs::render_guarded(&tmpl, &g);
+                        let want = code(first.2).to_string();
+                        if !matches!(&got, Ok(Ok(s)) if *s == want) {
+                            report.violation("C11|derived|template-disagrees", n, w(), format!("template says {got:?}, independent construction says {want}"));
+                        }
+                    }
+                }
+            }
+        }
+    }
+    // the verdict for a given (size, i, j) must be one and the same in every round
+    let mut per: std::collections::BTreeMap<(usize, usize, usize), std::collections::BTreeSet<char>> = Default::default();
+    for (s, i, j, c) in &outcomes {
+        per.entry((*s, *i, *j)).or_default().insert(*c);
+    }
+    for ((s, i, j), cs) in &per {
+        if cs.len() > 1 {
+            report.violation("C11|derived|outcome-differs-between-rebuilds", (*s * 1000 + *i * 32 + *j) as u64, json!({"kind":"compare","size":s,"up":i,"down":j}), format!("{s}-key object vs itself with k{i:02}+1, k{j:02}-1: outcomes {cs:?} over the rebuilds"));
+        }
+    }
+    report.outcome(&per.len());
+    report.nontrivial.fetch_add(n, Ordering::Relaxed);
+    report.family(FamilyStat { name: "derived objects".into(), cases: n, nontrivial: n, skipped: 0, note: format!("objects of 2/3/6/16 keys vs a copy with two entries moved in opposite directions, for every (up, down) position pair; the copy built 4 ways (independent, clone+edit, re-collected in iteration order, to_value); {rounds} rebuilds each") });
+}
+
 fn first_diff(a: &str, b: &str, n: usize) -> (usize, usize) {
     let (x, y): (Vec<char>, Vec<char>) = (a.chars().collect(), b.chars().collect());
     for i in 0..x.len().min(y.len()) {
@@ -331,6 +436,7 @@ pub fn run(tier: Tier) -> i32 {
     report.assume("transitivity is not claimed by the statement and is not checked; NaN is exempt from reflexivity");
     laws(&report, &pool);
     templates(&report, &pool);
+    derived_objects(&report, if tier.thorough() { 40 } else { 8 });
     if tier.thorough() {
         stability(&report, &pool, 200, 16);
     } else {
